@@ -17,12 +17,14 @@ typedef struct BatchPageAllocator_Slot BSlot_t;
 #define TOKEN(k) ((void *)(0x100000UL + 4096 * (k)))
 void **g_buf; size_t g_cap, g_bsz, g_pos;         /* the thread's buffer (typed, capacity of the model), its length, the cursor */
 BSlot_t *g_local; size_t g_f; void *g_old_at_pos;
+unsigned long g_slots_total, g_slots_seen; unsigned g_store_dtors; _Bool g_seen_before_dtor;
 unsigned long g_up; unsigned g_batches; size_t g_last_n; _Bool g_room_ok;
 static void vf_havoc_ghosts(void) {
   g_cap = nondet_u64(); __CPROVER_assume(g_cap >= 1 && g_cap < (1UL << 16));
   g_buf = malloc((g_cap + 1) * sizeof(void *)); __CPROVER_assume(g_buf != 0);
   g_bsz = nondet_u64(); g_pos = nondet_u64(); g_f = nondet_u64(); g_up = nondet_u64(); g_batches = 0; g_last_n = 0; g_room_ok = 1; g_old_at_pos = 0;
   g_local = malloc(sizeof(BSlot_t)); __CPROVER_assume(g_local != 0);
+  g_slots_total = nondet_u64(); g_slots_seen = 0; g_store_dtors = 0; g_seen_before_dtor = 0;
 }
 #define VBEGIN g_buf       /* (an empty vector's begin()/end()/data() and a default-constructed iterator are all null in libstdc++ and compare
                              equal; the model uses the start of the zero-length buffer for all of them, so relational pointer checks apply) */
@@ -50,4 +52,39 @@ __CPROVER_ensures(__CPROVER_old(g_pos) >= __CPROVER_old(g_bsz) ==> (g_batches ==
                   && g_local->next_page == g_buf + 1))
 __CPROVER_ensures((__CPROVER_old(g_pos) >= __CPROVER_old(g_bsz) && g_room_ok) ==> ((g_f == 0 ==> __CPROVER_return_value == TOKEN(__CPROVER_old(g_up))) && (g_f < a->_batch_size ==> g_buf[g_f] == TOKEN(__CPROVER_old(g_up) + g_f))))
 ;
+
+/* ~BatchPageAllocator: "destroying an allocator returns its cache upstream" -- the pages a thread left in its buffer stay cached after
+ * the thread exits, so the destructor must enumerate EVERY slot ever used (for_each), not only those of live threads
+ * (for_each_alive), hand each to its per-slot lambda once, and destroy the store only afterwards.  The per-slot lambda (returns
+ * [next_page, end) of the slot's buffer upstream) is not under contract: its effect is the stated contract below. */
+typedef struct lambda_page_allocator_dtor_BatchPageAllocator_1 DtorL_t;
+#ifdef VF_BATCH_DTOR
+#define LDTOR BatchPageAllocator_dtor_lambda_page_allocator_dtor_BatchPageAllocator_1_op_call
+void LDTOR(DtorL_t *c, BSlot_t *iter, BSlot_t *end)
+__CPROVER_requires(1)
+__CPROVER_assigns(g_slots_seen)
+__CPROVER_ensures(g_slots_seen == __CPROVER_old(g_slots_seen) + (unsigned long)(end - iter))        /* assumed: every slot of the range is handled once */
+;
+BSlot_t g_slot_arr[2];
+void SlotTL_for_each__lambda_page_allocator_dtor_BatchPageAllocator_1_void(struct SlotTL *c, DtorL_t *cb) {
+  /* every slot ever used, in one range (abstract: only the count matters to the contract above) */
+  unsigned long n = g_slots_total; unsigned long before = g_slots_seen;
+  LDTOR(cb, &g_slot_arr[0], &g_slot_arr[0]);
+  g_slots_seen = before + n;
+}
+#ifdef VF_HAVE_SlotTL_for_each_alive__lambda_page_allocator_dtor_BatchPageAllocator_1_void
+void SlotTL_for_each_alive__lambda_page_allocator_dtor_BatchPageAllocator_1_void(struct SlotTL *c, DtorL_t *cb) {
+  unsigned long n = nondet_u64(); __CPROVER_assume(n <= g_slots_total);       /* only the slots of threads alive now */
+  unsigned long before = g_slots_seen;
+  LDTOR(cb, &g_slot_arr[0], &g_slot_arr[0]);
+  g_slots_seen = before + n;
+}
+#endif
+void SlotTL_dtor(struct SlotTL *c) { g_seen_before_dtor = (g_slots_seen == g_slots_total); if (g_store_dtors < 1000) g_store_dtors++; }
+void BatchPageAllocator_dtor(BPA_t *a)
+__CPROVER_requires(__CPROVER_is_fresh(a, sizeof(*a)) && g_slots_seen == 0 && g_store_dtors == 0 && g_slots_total < (1UL << 40))
+__CPROVER_assigns(g_slots_seen, g_store_dtors, g_seen_before_dtor)
+__CPROVER_ensures(g_slots_seen == g_slots_total && g_store_dtors == 1 && g_seen_before_dtor)
+;
+#endif
 #endif
